@@ -192,12 +192,15 @@ theorem labelsOf_record (id : Nat) (skip : Label) : labelsOf (recordRuleID id sk
 theorem record_addr (h : Nat) (hh : h < 32) :
     ((BitVec.ofNat 64 h <<< ((sext32 3).toNat % 64)) + sext32 112 + stateW) + BitVec.ofInt 64 0 =
       stateW + BitVec.ofNat 64 (h * 8 + 112) := by
+  have s3 : sext32 3 = 3#64 := by decide
+  have s112 : sext32 112 = 112#64 := by decide
+  have s0 : BitVec.ofInt 64 0 = 0#64 := by decide
+  rw [s3, s112, s0]
   apply BitVec.eq_of_toNat_eq
-  have h3 : (sext32 3).toNat % 64 = 3 := by rfl
-  have h112 : (sext32 112).toNat = 112 := by rfl
-  have h0 : (BitVec.ofInt 64 0).toNat = 0 := by rfl
-  have hs : stateW.toNat = 1342177280 := by rfl
-  simp only [BitVec.toNat_add, BitVec.toNat_shiftLeft, BitVec.toNat_ofNat, h3, h112, h0, hs, Nat.shiftLeft_eq]
+  unfold stateW stateBase
+  simp only [BitVec.toNat_add, BitVec.toNat_shiftLeft, BitVec.toNat_ofNat, Nat.shiftLeft_eq]
+  have e3 : 3 % 2 ^ 64 % 64 = 3 := by omega
+  rw [e3]
   omega
 
 /-- `writeRecordRuleID`: either the hit table is full and control jumps to `skip`, or the rule id
